@@ -286,6 +286,12 @@ func cmdCheck(args []string) int {
 		fmt.Fprintf(os.Stderr, "no such property/tier: %s %s\n", e.prop, e.tier)
 		return 2
 	}
+	if v, err := strconv.ParseInt(os.Getenv("VERIF_RUNS"), 10, 64); err == nil && v > 0 { // development aid
+		*runsOverride = v
+	}
+	if v, err := strconv.Atoi(os.Getenv("VERIF_WALL")); err == nil && v > 0 {
+		*wallOverride = v
+	}
 	if *runsOverride > 0 {
 		b.runs = *runsOverride
 		b.ffRuns = *runsOverride / 4
